@@ -544,7 +544,8 @@ func (s *session) opRawMulti(r *rec, bufs ...[]byte) bool {
 func relabel(buf []byte, g *rng) []byte {
 	out := append([]byte(nil), buf...)
 	changed := false
-	for off := 0; off+16 <= len(out); {
+	off := 0
+	for off+16 <= len(out) {
 		n := int(binary.LittleEndian.Uint32(out[off+12:]))
 		if off+16+n > len(out) {
 			return nil
@@ -560,7 +561,9 @@ func relabel(buf []byte, g *rng) []byte {
 		}
 		off += 16 + n
 	}
-	if !changed {
+	if !changed || off != len(out) {
+		// (a datagram that does not end on a record boundary — a trailing partial header — cannot be followed
+		// by another one in ONE op line: the model reads the concatenation, the reader reads them one by one)
 		return nil
 	}
 	return out
